@@ -10,8 +10,7 @@ import collections
 from .. import stream, genrun
 from . import common
 
-FACTS = ["file_codegen_src_rule_rs", "file_codegen_src_grammar_mod_rs", "file_runtime_src_state_rs",
-         "file_runtime_src_global_rs", "scan_shared_state"]
+FACTS = [f for f in common.CODEGEN_FILES if f != "memo_closed"] + ["scan_shared_state"]
 
 
 def check(out, ctx):
